@@ -49,6 +49,7 @@ def build_row(rec, ref, qs):
                                      rev).setAlignedRest(rest)
 
 
+@core.guarded(lambda idxs, *a: dict(records=list(idxs)))
 def check_case(idxs, acc):
     from src.args import Args
     from src.parsers.xmap_reader import XmapReader
